@@ -80,13 +80,13 @@ def read_text(path):
 
 def gen_case(rng, i):
     if i % 5 == 4:
-        n = rng.choice([0, 1, 5, 40, 300])
-        a = bytes(rng.randrange(256) for _ in range(n))
+        n = rng.choice([0, 1, 5, 40, 300, 4096, 5000, 9000, 70000])
+        a = rng.randbytes(n) if n > 300 else bytes(rng.randrange(256) for _ in range(n))
         k = rng.random()
-        if k < 0.25:
+        if k < 0.2:
             b = a
-        elif k < 0.45 and n:
-            j = rng.choice([0, n // 2, n - 1])
+        elif k < 0.5 and n:
+            j = rng.choice([0, n // 2, n - 1] + [x for x in (4095, 4096, 4097, 8191, 8192, 65536) if x < n])
             b = a[:j] + bytes([(a[j] + 1) % 256]) + a[j + 1:]
         elif k < 0.7:
             b = a + bytes(rng.randrange(256) for _ in range(rng.randint(1, 4)))
